@@ -42,7 +42,10 @@ type vCall struct {
 	kind int
 }
 
-func (s *vSub) Input() schema.Scope                                    { return &vScope{} }
+func (s *vSub) Input() schema.Scope {
+	// everything but Unserialize is the real (empty) scope: Prepare inspects the type of the loop's items
+	return &vScope{Scope: schema.NewScopeSchema(schema.NewObjectSchema("item", map[string]*schema.PropertySchema{}))}
+}
 func (s *vSub) DAG() dgraph.DirectedGraph[*workflow.DAGItem]           { return nil }
 func (s *vSub) OutputSchema() map[string]*schema.StepOutputSchema {
 	return map[string]*schema.StepOutputSchema{"success": schema.NewStepOutputSchema(schema.NewScopeSchema(schema.NewObjectSchema("item", map[string]*schema.PropertySchema{})), nil, false)}
